@@ -57,11 +57,21 @@ IsRetention(e) == e.op \in {"SnapRetention", "L0Retention", "RetByTXID", "Compac
 
 \* level-0 files litestream CREATED in a step (a baseline fetched from the replica by checkDatabaseBehindReplica is a copy, not a creation)
 Created(e) == SelectSeq(e.newl0, LAMBDA f : ~f.fetched)
+ToSet(sq) == {sq[i] : i \in DOMAIN sq}
+RemSeen == UNION {ToSet(Log[k].newrem) : k \in t0..l}              \* every replica file ever observed in this trace
+Pairs(f) == {<<f.pgs[i], f.ids[i]>> : i \in DOMAIN f.pgs}
+PgSet(f) == {f.pgs[i] : i \in DOMAIN f.pgs}
+L0Known(n) == \E f \in RemSeen : f.lvl = 0 /\ f.min = n /\ f.max = n /\ f.err = "none"
+L0At(n) == CHOOSE f \in RemSeen : f.lvl = 0 /\ f.min = n /\ f.max = n /\ f.err = "none"
 \* the last level-0 file litestream has locally before line k of the same trace: its WAL cursor [gen, end]
 RECURSIVE CursorAt(_)
 CursorAt(k) ==
   IF k < 1 \/ Log[k].op = "Reset" THEN [gen |-> 0, end |-> 0]
-  ELSE IF Log[k].op \in {"LsReset", "MetaLost"} /\ Log[k].res = "ok" /\ Len(Log[k].newl0) = 0 THEN [gen |-> 0, end |-> 0]
+  \* local state gone: what litestream will work from is the replica's newest level-0 file (it re-fetches it)
+  ELSE IF Log[k].op \in {"LsReset", "MetaLost"} /\ Log[k].res = "ok" /\ Len(Log[k].newl0) = 0
+         THEN IF Log[k].rpos > 0 /\ L0Known(Log[k].rpos)
+                THEN LET f == L0At(Log[k].rpos) IN [gen |-> f.gen, end |-> f.off + f.len]
+                ELSE [gen |-> 0, end |-> 0]
   ELSE IF Len(Log[k].newl0) > 0
          THEN LET f == Log[k].newl0[Len(Log[k].newl0)] IN [gen |-> f.gen, end |-> f.off + f.len]
          ELSE CursorAt(k - 1)
@@ -72,12 +82,6 @@ Unsynced(k) ==
   /\ w.exists /\ w.commit > 0
   /\ IF w.gen = c.gen THEN w.commit > c.end ELSE TRUE
 
-ToSet(sq) == {sq[i] : i \in DOMAIN sq}
-RemSeen == UNION {ToSet(Log[k].newrem) : k \in t0..l}              \* every replica file ever observed in this trace
-Pairs(f) == {<<f.pgs[i], f.ids[i]>> : i \in DOMAIN f.pgs}
-PgSet(f) == {f.pgs[i] : i \in DOMAIN f.pgs}
-L0Known(n) == \E f \in RemSeen : f.lvl = 0 /\ f.min = n /\ f.max = n /\ f.err = "none"
-L0At(n) == CHOOSE f \in RemSeen : f.lvl = 0 /\ f.min = n /\ f.max = n /\ f.err = "none"
 
 Init == l = 1 /\ lost = FALSE /\ reset = FALSE /\ floor = 0 /\ idleN = 0 /\ idleNew = 0 /\ t0 = 1 /\ ep0 = 1 /\ lastAck = 1 /\ retained = FALSE /\ pendLoss = FALSE /\ sameSince = FALSE /\ hz = {}
 
